@@ -32,8 +32,6 @@ use air_interpreter_signatures::SignatureStore;
 use std::collections::HashMap;
 use std::rc::Rc;
 
-const CANNOT_HAPPEN_IN_VERIFIED_CID_STORE: &str = "cannot happen in a checked CID store";
-
 /// An util for verificating particular data's signatures.
 pub struct DataVerifier<'data> {
     // a map from peer_id to peer's info (public key, signature, CIDS)
@@ -164,14 +162,15 @@ fn collect_peers_cids_from_trace<'data>(
                 let cid = call.get_cid();
                 if let Some(cid) = cid {
                     // TODO refactor
+                    // CidInfo::verify checks references between the stores, but not the ones from a trace
                     let service_result = cid_info
                         .service_result_store
                         .get(cid)
-                        .expect(CANNOT_HAPPEN_IN_VERIFIED_CID_STORE);
+                        .ok_or_else(|| DataVerifierError::CidNotFound(cid.get_inner()))?;
                     let tetraplet = cid_info
                         .tetraplet_store
                         .get(&service_result.tetraplet_cid)
-                        .expect(CANNOT_HAPPEN_IN_VERIFIED_CID_STORE);
+                        .ok_or_else(|| DataVerifierError::CidNotFound(service_result.tetraplet_cid.get_inner()))?;
 
                     let peer_pk = tetraplet.peer_pk.as_str();
                     try_push_cid(grouped_cids, peer_pk, cid)?;
@@ -182,11 +181,11 @@ fn collect_peers_cids_from_trace<'data>(
                 let canon_result = cid_info
                     .canon_result_store
                     .get(cid)
-                    .expect(CANNOT_HAPPEN_IN_VERIFIED_CID_STORE);
+                    .ok_or_else(|| DataVerifierError::CidNotFound(cid.get_inner()))?;
                 let tetraplet = cid_info
                     .tetraplet_store
                     .get(&canon_result.tetraplet)
-                    .expect(CANNOT_HAPPEN_IN_VERIFIED_CID_STORE);
+                    .ok_or_else(|| DataVerifierError::CidNotFound(canon_result.tetraplet.get_inner()))?;
 
                 let peer_pk = tetraplet.peer_pk.as_str();
                 try_push_cid(grouped_cids, peer_pk, cid)?;
